@@ -163,7 +163,46 @@ Definition s_outFilter : str := [111; 117; 116; 70; 105; 108; 116; 101; 114].
 
 Definition fw_irc (name : str) : bool := existsb (seq_eqb name) gen.T07.IRC_FIREWALLED.
 Definition fw_state (name : str) : bool := existsb (seq_eqb name) gen.T07.STATE_FIREWALLED.
-Definition fw_cb (name : str) : bool := existsb (fun p => seq_eqb name (fst p)) gen.T07.CALLBACK_FIREWALLED.
+
+(* ---- which methods of a callback class get the firewall: log.MetaFirewall.__new__ over the class hierarchy ----
+   gen.T07.PYCLASSES: (class, (bases, (MRO, own __firewalled__ keys))) for object, Firewalled, SynchronizedAndFirewalled,
+   IrcCommandDispatcher, IrcCallback, BasePlugin, Commands, PluginMixin, Plugin, PluginRegexp. *)
+Inductive cbkind : Type :=
+| KCallback        (* class X(irclib.IrcCallback) *)
+| KPlugin          (* class X(callbacks.Plugin): what every plugin is *)
+| KPluginRegexp.   (* class X(callbacks.PluginRegexp) *)
+Definition kind_base (k : cbkind) : str :=
+  match k with
+  | KCallback => [73; 114; 99; 67; 97; 108; 108; 98; 97; 99; 107]
+  | KPlugin => [80; 108; 117; 103; 105; 110]
+  | KPluginRegexp => [80; 108; 117; 103; 105; 110; 82; 101; 103; 101; 120; 112]
+  end.
+Fixpoint class_row (n : str) (l : list (str * (list str * (list str * option (list str)))))
+  : option (list str * (list str * option (list str))) :=
+  match l with
+  | [] => None
+  | (c, r) :: l' => if seq_eqb n c then Some r else class_row n l'
+  end.
+Definition class_mro (n : str) : list str :=
+  match class_row n gen.T07.PYCLASSES with Some (_, (m, _)) => m | None => [] end.
+Definition class_own_fw (n : str) : option (list str) :=
+  match class_row n gen.T07.PYCLASSES with Some (_, (_, o)) => o | None => None end.
+(* `hasattr(base, '__firewalled__')` / `base.__firewalled__`: attribute lookup = the first class of the MRO whose
+   body has one *)
+Fixpoint first_fw (mro : list str) : list str :=
+  match mro with
+  | [] => []
+  | c :: r => match class_own_fw c with Some d => d | None => first_fw r end
+  end.
+(* `for klass in reversed(base.__mro__): update(klass.__dict__.get('__firewalled__', []))` *)
+Definition all_fw (mro : list str) : list str :=
+  flat_map (fun c => match class_own_fw c with Some d => d | None => [] end) (rev mro).
+(* the keys of `firewalled` in MetaFirewall.__new__(cls, name, bases, classdict) for a class body without its own
+   __firewalled__ *)
+Definition merged_fw (bases : list str) : list str :=
+  flat_map (fun b => if gen.T07.METAFIREWALL_MERGES_MRO then all_fw (class_mro b) else first_fw (class_mro b)) bases.
+(* `if attr in classdict: classdict[attr] = firewall(...)`: a method that a callback class of this kind defines *)
+Definition fw_cb (k : cbkind) (name : str) : bool := existsb (seq_eqb name) (merged_fw [kind_base k]).
 
 (* ---- what a handler does: new state, "asked driver.reconnect()", exception raised afterwards ---- *)
 Record hres (St : Type) : Type := HR { h_st : St; h_reconn : bool; h_exc : option xc }.
@@ -172,10 +211,11 @@ Arguments HR {St}. Arguments h_st {St}. Arguments h_reconn {St}. Arguments h_exc
 (* a plugin callback: inFilter (bool = returned a true value), __call__, outFilter (on a PONG payload).
    The first argument of the incoming hooks is the index of the feedMsg call. *)
 Record cb (St : Type) : Type := CB {
+  cb_kind : cbkind;
   cb_in : N -> msg -> St -> hres St * bool;
   cb_call : N -> msg -> St -> hres St;
   cb_out : str -> St -> hres St }.
-Arguments CB {St}. Arguments cb_in {St}. Arguments cb_call {St}. Arguments cb_out {St}.
+Arguments CB {St}. Arguments cb_kind {St}. Arguments cb_in {St}. Arguments cb_call {St}. Arguments cb_out {St}.
 
 (* ---- driver + Irc core state ---- *)
 (* the entries of irc.state.supported (ISUPPORT, numeric 005) that the per-message path reads BEFORE dispatch:
@@ -339,7 +379,7 @@ Fixpoint run_infilters (n : N) (m : msg) (l : list (cb St)) (p : pstate) : pstat
       match h_exc r with
       | Some e =>
           (* firewall(inFilter) has the error handler `lambda self, irc, msg: msg`; then feedMsg's own try *)
-          match through_try_at 4 gen.T07.FEED_INFILTER_CATCHES (through_fw (fw_cb s_inFilter) (Some e)) with
+          match through_try_at 4 gen.T07.FEED_INFILTER_CATCHES (through_fw (fw_cb (cb_kind c) s_inFilter) (Some e)) with
           | Some e' => (p', Some e', false)
           | None => run_infilters n m l' p'
           end
@@ -353,7 +393,7 @@ Fixpoint run_calls (n : N) (m : msg) (l : list (cb St)) (p : pstate) : pstate * 
   | c :: l' =>
       let r := cb_call c n m (snd p) in
       let p' := (apply_reconn (h_reconn r) (fst p), h_st r) in
-      match through_try_at 5 gen.T07.FEED_CALLBACK_CATCHES (through_fw (fw_cb s_call) (h_exc r)) with
+      match through_try_at 5 gen.T07.FEED_CALLBACK_CATCHES (through_fw (fw_cb (cb_kind c) s_call) (h_exc r)) with
       | Some e => (p', Some e)
       | None => run_calls n m l' p'
       end
@@ -441,7 +481,7 @@ Fixpoint run_outfilters (a : str) (l : list (cb St)) (p : pstate) : pstate * opt
   | c :: l' =>
       let r := cb_out c a (snd p) in
       let p' := (apply_reconn (h_reconn r) (fst p), h_st r) in
-      match through_fw (fw_cb s_outFilter) (h_exc r) with
+      match through_fw (fw_cb (cb_kind c) s_outFilter) (h_exc r) with
       | Some e => (p', Some e)
       | None => run_outfilters a l' p'       (* error handler returns msg *)
       end
@@ -659,8 +699,9 @@ Definition poisoned (poison : N) (r : hres clog) : hres clog :=
   | Some (XE e) => if N.eqb poison 0 then r else HR (h_st r) (h_reconn r) (Some (XP e (exn_of_code poison)))
   | _ => r
   end.
-Definition c_cb (i : N) (in_rows call_rows : list (list N)) (trig code poison : N) : cb clog :=
-  CB (fun n _ s => let r := find_row n in_rows in
+Definition kind_of_code (k : N) : cbkind := match k with 1 => KPlugin | 2 => KPluginRegexp | _ => KCallback end.
+Definition c_cb (i : N) (in_rows call_rows : list (list N)) (trig code poison kind : N) : cb clog :=
+  CB (kind_of_code kind) (fun n _ s => let r := find_row n in_rows in
                    (poisoned poison (row_res r ([1; n; i] :: s)), match r with [_; _; _; k] => negb (N.eqb k 0) | _ => true end))
      (fun n _ s => poisoned poison (row_res (find_row n call_rows) ([2; n; i] :: s)))
      (fun a s => let hit := negb (N.eqb code 0) &&
@@ -672,7 +713,7 @@ Fixpoint c_cbs (i : N) (l : list value) : list (cb clog) :=
   | [] => []
   | v :: l' =>
       c_cb i (map (map gN) (map gL (gL (nth_v 0 v)))) (map (map gN) (map gL (gL (nth_v 1 v))))
-           (gN (nth_v 0 (nth_v 2 v))) (gN (nth_v 1 (nth_v 2 v))) (gN (nth_v 3 v)) :: c_cbs (i + 1) l'
+           (gN (nth_v 0 (nth_v 2 v))) (gN (nth_v 1 (nth_v 2 v))) (gN (nth_v 3 v)) (gN (nth_v 4 v)) :: c_cbs (i + 1) l'
   end.
 
 Definition g_recv (v : value) : recv :=
@@ -721,5 +762,6 @@ Definition run (v : value) : value :=
   | 2 => L (map (fun e => I (exn_code e)) (parse_excs vt dec rvs []))
   | 3 => vN (consuming (gS pl))
   | 4 => vB (int_ok (gS pl))
+  | 5 => L [vLS (class_mro (gS pl)); vLS (merged_fw [gS pl])]
   | _ => L []
   end.
